@@ -1,4 +1,5 @@
 import HypatiaModel.Facet
+import HypatiaModel.IndexObs
 import HypatiaModel.Spec.FacetSpec
 import Driver.Sess
 namespace Driver.FacetS
@@ -39,7 +40,7 @@ def obs (st : St) : String :=
   let vals := (withKw.flatMap (Keyword.Spec.kwOf kt)).eraseDups
   let sf := fun (l : List Facet) => " ".intercalate ((sortFacets l).map showFacet)
   s!"indexed={showIdSet (Keyword.indexed s)} ni={showIdSet s.notIndexed} docids={showIdSet (Keyword.docids s)} " ++
-  s!"ic={Keyword.indexedCount s} nic={Keyword.notIndexedCount s} dc={(Keyword.docids s).length} " ++
+  s!"ic={Keyword.indexedCount s} nic={Keyword.notIndexedCount s} dc={Keyword.docidsCount s} " ++
   s!"wc={Keyword.wordCount s} uv=[{sf (Keyword.uniqueValues s)}]" ++ " ## " ++
   s!"indexed={showIdSet withKw} ni={showIdSet noVal} docids={showIdSet kn} " ++
   s!"ic={withKw.length} nic={noVal.length} dc={kn.length} wc={vals.length} uv=[{sf vals}]"
@@ -107,6 +108,13 @@ def step0 (st : St) (toks : List String) : St × String :=
            showCounts (Spec.counts st.s.facets st.t (Keyword.Spec.any kt ks) om))
     | _, _ => (st, "bad-op")
   | ["obs"] => (st, obs st)
+  -- C06: a new index over the same facets with the current threshold that indexed the current
+  -- mapping once (model side: really built, `Facet.fresh`; specification side: the table's answer)
+  | ["obsfresh"] => (st, obs { s := Facet.fresh st.s.facets st.s.ks.thr st.t, t := st.t })
+  -- C06: the inherited `_num_docs` Length (no public reader; probed only where it exists)
+  | ["numdocs"] =>
+    let n := ((AMap.keys st.t).filter (fun d => !(Spec.listed st.s.facets (Spec.pathsOf st.t d)).isEmpty)).length
+    (st, toString (Keyword.numDocsCounter st.s.ks) ++ " ## " ++ toString n)
   | ["tags"] => (st, "tags " ++ tags st.s.ks ++ " ## tags-any")   -- the property leaves the representation free
   | ["repr", d] =>
     match d.toInt? with
@@ -114,6 +122,14 @@ def step0 (st : St) (toks : List String) : St × String :=
       let f : List Facet → String := fun l =>
         if l = [] then "none" else "[" ++ " ".intercalate ((sortFacets l).map showFacet) ++ "]"
       (st, f ((Keyword.documentRepr st.s.ks d).getD []) ++ " ## " ++
+           f (Spec.listed st.s.facets (Spec.pathsOf st.t d)))
+    | none => (st, "bad-op")
+  | ["reprfresh", d] =>
+    match d.toInt? with
+    | some d =>
+      let f : List Facet → String := fun l =>
+        if l = [] then "none" else "[" ++ " ".intercalate ((sortFacets l).map showFacet) ++ "]"
+      (st, f ((Facet.documentRepr (Facet.fresh st.s.facets st.s.ks.thr st.t) d).getD []) ++ " ## " ++
            f (Spec.listed st.s.facets (Spec.pathsOf st.t d)))
     | none => (st, "bad-op")
   | _ => (st, "bad-op")
